@@ -5,7 +5,7 @@ HERE="$(cd "$(dirname "$0")" && pwd)"
 cd "$HERE"
 mkdir -p .cache evidence replays coq/Gen
 export PYTHONPATH=/repo PYTHONHASHSEED=0 PYTHONDONTWRITEBYTECODE=1
-if [ -f tools/gen.py ]; then /venv/bin/python tools/gen.py; fi
+if [ -f tools/gen.py ] && [ -f tools/GEN_ENABLED ]; then /venv/bin/python tools/gen.py; fi
 cd coq
 coq_makefile -f _CoqProject -o Makefile
 timeout 3000 make -j"$(nproc)"
